@@ -440,6 +440,20 @@ def make_tasks(env: Env, broker: ScriptedBroker, cfg: Dict[str, Any]) -> None:
     broker.register_task(glb["ts"], task_name="ts")
 
 
+def _wire_label(v: Any) -> Any:
+    """Wire form of a label, written down independently of taskiq.labels (type codes are part of the wire contract)."""
+    import base64
+    if type(v) is bool:
+        return str(v), 5
+    if type(v) is int:
+        return str(v), 2
+    if type(v) is float:
+        return str(v), 4
+    if type(v) is bytes:
+        return base64.b64encode(v).decode(), 6
+    return str(v), 3
+
+
 def build_messages(env: Env, broker: ScriptedBroker, cfg: Dict[str, Any]) -> None:
     for idx, mc in enumerate(cfg["msgs"], start=1):
         kind = mc.get("kind", "valid")
@@ -454,8 +468,17 @@ def build_messages(env: Env, broker: ScriptedBroker, cfg: Dict[str, Any]) -> Non
             if mc.get("timeout"):
                 labels["timeout"] = mc["timeout"] / 10.0
             name = "no_such_task" if kind == "unknown" else mc.get("task", "ta0")
+            wire_labels, wire_types = labels, None
+            if idx % 2 == 0:
+                # the way a kicker puts labels on the wire: stringified values + per-label type (incl. a bytes label whose
+                # text is not itself valid base64)
+                labels["raw"] = b"tenant-%d\xff" % idx
+                labels["ok"] = idx % 4 == 0
+                prepared = {k_: _wire_label(v_) for k_, v_ in labels.items()}
+                wire_labels = {k_: v_[0] for k_, v_ in prepared.items()}
+                wire_types = {k_: v_[1] for k_, v_ in prepared.items()}
             tm = TaskiqMessage(
-                task_id=f"m{mc.get('tid') or idx}", task_name=name, labels=labels, labels_types=None,
+                task_id=f"m{mc.get('tid') or idx}", task_name=name, labels=wire_labels, labels_types=wire_types,
                 args=[idx, ARG_POOL[idx % len(ARG_POOL)]], kwargs={},
             )
             env.msg_labels[idx] = dict(labels)
